@@ -1,9 +1,123 @@
 (* C07  File locks are exclusive and semaphores bounded under every interleaving.
-   Property theorems only; proofs live in theories/Lock_proofs.v. *)
+   Property theorems only; proofs live in theories/Lock_proofs.v.
+
+   Reading guide.  `run chk cfg init l = Some s`: the schedule l (a list of (process, system call)) is a
+   possible execution of the lock code from the initial state (no lock file, every process outside) and ends
+   in state s; chk = true is the code as it is (identity check of the lock file after flock, commit 493c25f),
+   chk = false the protocol before that repair.  `cfg p` says which lock object process p uses:
+   FileLock(remove_on_unlock = rm) or SemLock(n), and its timeout.  The number of processes is unbounded
+   (pid = nat), schedules are arbitrary lists, every mix of release styles on the same path is covered. *)
 From Coq Require Import ZArith List Bool Arith.
 Import ListNotations.
 From MP Require Import Lock Lock_proofs.
 
+(* Keep-the-file locks: at most one process is inside, under every schedule, with or without the identity
+   check. *)
+Theorem mutex_keepfile :
+  forall chk cfg l s p q,
+    keepfile cfg -> all_filelocks cfg ->
+    run chk cfg init l = Some s -> inside s p -> inside s q -> p = q.
+Proof. exact mutex_keepfile_lemma. Qed.
+
+(* FileLocks of any release style (remove_on_unlock or not, mixed on one path), code as it is: at most one
+   process is inside, under every schedule. *)
+Theorem mutex_remove_on_unlock :
+  forall cfg l s p q,
+    all_filelocks cfg ->
+    run true cfg init l = Some s -> inside s p -> inside s q -> p = q.
+Proof. exact mutex_remove_lemma. Qed.
+
+(* Without the identity check the same statement is false: three users of one remove_on_unlock lock, eleven
+   calls, two of them inside (finding F5; what a mutation that removes the check re-introduces). *)
 Theorem mutex_remove_on_unlock_refuted_without_check :
   exists s, run false f5_cfg init f5_schedule_nocheck = Some s /\ inside_at s 1 0 /\ inside_at s 2 0.
 Proof. exact f5_two_inside_without_check. Qed.
+
+(* Every single lock file (path k) of a FileLock or SemLock admits at most one process, whenever the protocol
+   is `safe`: identity check present, or nobody removes. *)
+Theorem mutex_per_lock_file :
+  forall chk cfg l s p q k,
+    safe chk cfg ->
+    run chk cfg init l = Some s -> inside_at s p k -> inside_at s q k -> p = q.
+Proof. exact mutex_per_lock_file_lemma. Qed.
+
+(* Counting variant: if every contender uses a semaphore (or lock) of at most n slots, any set of distinct
+   processes that are inside at the same time has at most n members. *)
+Theorem semaphore_bounded :
+  forall cfg n l s pids,
+    (forall p, nslots (cfg p) <= n) ->
+    run true cfg init l = Some s ->
+    NoDup pids -> (forall p, In p pids -> inside s p) -> length pids <= n.
+Proof. exact semaphore_bounded_lemma. Qed.
+
+(* A failed attempt, first kind (flock refused): at that moment another process q has an open descriptor with
+   the flock taken on the very inode p opened through the path (q is inside, about to check or to release, or
+   has unlinked the file and not yet dropped its LockFile).  p goes on to close its file. *)
+Theorem failed_attempt_means_held :
+  forall chk cfg l s p s' e,
+    safe chk cfg -> run chk cfg init l = Some s ->
+    step chk cfg s p OFlock = Some (s', RFlock false, e) ->
+    exists a i q, st_pc (ps s p) = Opened a i /\ q <> p /\ owner s i = Some q /\ holds s q i /\
+                  st_pc (ps s' p) = Closing a i false.
+Proof. exact failed_flock_lemma. Qed.
+
+(* A released lock can be taken again: in any reachable state in which p is outside and no other process has
+   a LockFile with the flock taken (the others may be idle, sleeping between polls, or anywhere before their
+   flock call), p running alone is inside after at most six calls of its own - time, [randint], open, flock,
+   stat, [close of the file its previous unlock-by-remove left open] - whatever clock reading t and random
+   start slot r < n it gets; the last call makes lock() return. *)
+Theorem released_lock_acquirable :
+  forall cfg l s p t r,
+    run true cfg init l = Some s ->
+    st_pc (ps s p) = Idle -> quiet_others s p -> r < nslots (cfg p) ->
+    exists s' k i,
+      run_ev true cfg s (solo p (solo_ops (cfg p) (has_zomb s p) t r)) ENone = Some (s', EAcquired k i) /\
+      st_pc (ps s' p) = Inside k i.
+Proof. exact released_lock_acquirable_lemma. Qed.
+
+(* LockTimeout (partial).  It is raised only by a clock reading t >= stop_time, and that reading directly
+   follows (no call of p in between) the close ending a failed attempt of this lock() call in which all n lock
+   files were tried.  NOT proved, because it is false of a polling lock and not expressible at this
+   granularity: that the lock was unavailable continuously between two polls - a lock released and re-taken
+   by others while p slept is indistinguishable, for p, from one held throughout. *)
+Theorem timeout_partial :
+  forall chk cfg l s p o s' r,
+    run chk cfg init l = Some s -> step chk cfg s p o = Some (s', r, ETimeout) ->
+    exists stop t, o = OTime t /\ (stop <= t)%Z /\ after_failed_attempt chk cfg l p stop.
+Proof. exact timeout_partial_lemma. Qed.
+
+(* A failed attempt, second kind (identity check failed: after p's flock succeeded the path names another file
+   or none).  Then, during this very attempt - after p had opened inode i through the path and before p opened
+   anything else - another process q was inside holding the flock of that same inode i through the same path,
+   and released it by removing the file.  Together with failed_attempt_means_held: every attempt that ends in
+   LockError overlapped a moment at which another process held the lock p was trying to take. *)
+Theorem failed_check_means_held :
+  forall cfg l s p a i,
+    run true cfg init l = Some s -> st_pc (ps s p) = Closing a i true ->
+    removed_under true cfg l p a i.
+Proof. exact failed_check_lemma. Qed.
+
+(* unlock() of a remove_on_unlock lock always finds and removes exactly the file the process has locked (the
+   `except OSError` branch of FileLock.unlock is dead while every user of the path goes through FileLock);
+   afterwards the path is free and the process is outside. *)
+Theorem unlock_removes_own_file :
+  forall cfg l s p s' r e,
+    run true cfg init l = Some s -> step true cfg s p ORemove = Some (s', r, e) ->
+    exists k i, st_pc (ps s p) = Inside k i /\ path s k = Some i /\ owner s i = Some p /\
+                r = RRemove true /\ path s' k = None /\ st_pc (ps s' p) = Idle.
+Proof. exact unlock_remove_lemma. Qed.
+
+(* A process that is outside and has dropped (or never had) a left-over file holds no flock at all: unlock
+   really releases. *)
+Theorem idle_process_owns_nothing :
+  forall chk cfg l s p i,
+    safe chk cfg -> run chk cfg init l = Some s ->
+    st_pc (ps s p) = Idle -> st_zomb (ps s p) = None -> owner s i <> Some p.
+Proof. exact idle_owns_nothing_lemma. Qed.
+
+(* SemLock rotation i = (i+1) % n: whatever the random start r, the n attempts of one _try_lock call visit
+   every one of the n lock files (so a LockError of the semaphore means all n files were found locked). *)
+Theorem sem_rotation_visits_every_slot :
+  forall n r k, r < n -> k < n ->
+    exists j, j < n /\ Nat.iter j (fun x => S x mod n) r = k.
+Proof. exact sem_rotation_lemma. Qed.
